@@ -89,7 +89,8 @@ def run(ctx, tier):
     if f:
         results.append(f)
     import c06
-    for w in Ws:
+    nth = {}
+    for w in sorted(Ws, key=lambda e: e['loc']):
         if w['node'] in reach_wo:
             p = T.path(start, w['node'], avoid=okn)
             # how was the file obtained?  (exclusive creation makes the early write harmless to an existing database)
@@ -104,7 +105,9 @@ def run(ctx, tier):
                         if v and c06._creates_new_under(F, ctx, g, pi):
                             excl = True
             how = '' if excl else ' on a file not created exclusively'
-            results.append(bad(rule, '%s | %s=%s before the lock%s' % (op.qual, w['ev'], w['callee'], how),
+            nth[(w['ev'], w['callee'], how)] = nth.get((w['ev'], w['callee'], how), 0) + 1
+            k = nth[(w['ev'], w['callee'], how)]
+            results.append(bad(rule, '%s | %s=%s before the lock%s%s' % (op.qual, w['ev'], w['callee'], how, '' if k == 1 else ' (#%d)' % k),
                                'the file %s at %s (creation branch of open) happens before the exclusive file lock is taken: a second process that finds the path existing locks first '
                                'and maps a short or uninitialised file' % ('growth' if w['ev'] == 'G' else 'write', w['loc']), where=w['loc'], path=T.describe_path(p or [])))
         else:
@@ -166,6 +169,20 @@ def run(ctx, tier):
             results.append(bad(rule, '%s | locked File is not the one kept in DBInner.file' % fn.qual,
                                'the File on which lock_exclusive is called at %s is not the value stored in DBInner.file: the lock would be released when the temporary handle is dropped'
                                % e['loc'], where=e['loc']))
+    # nothing on the open path removes or replaces the file at the database path: whoever created it may be inside (and holds its lock on that inode)
+    PATH_OPS = ('std::fs::remove_file', 'std::fs::rename', 'std::fs::remove_dir_all', 'std::fs::hard_link', 'std::fs::copy')
+    npath = 0
+    for n in T.nodes:
+        if n.bb is None or n.virt:
+            continue
+        t = n.fn.term(n.bb)
+        c = callee_of(t) if t['k'] == 'call' else None
+        if c and strip_generics(c['path']) in PATH_OPS:
+            npath += 1
+            results.append(bad(rule, '%s | %s on the open path' % (n.fn.qual, last_seg(strip_generics(c['path']))),
+                               '%s calls %s at %s while opening: the file at the database path may belong to a process that created it a moment ago and is inside holding the '
+                               'lock on that inode; removing or replacing the path lets the next opener create and lock a different file' % (n.fn.qual, strip_generics(c['path']), n.loc()),
+                               where=n.loc()))
     nforb = 0
     for fn in F.fns:
         for bb, t, c in calls_named(F, fn, *FORBIDDEN):
